@@ -501,6 +501,9 @@ func FastMarshalMultiRows(src []byte, rows []Row) ([]byte, error) {
 
 func FastUnmarshalMultiRows(src []byte, rows []Row, tagPool []Tag, fieldPool []Field, indexOptionPool []IndexOption,
 	indexKeyPool []byte) ([]Row, []Tag, []Field, []IndexOption, []byte, error) {
+	if len(src) < 5 {
+		return rows[:0], tagPool, fieldPool, indexOptionPool, indexKeyPool, errors.New("too small bytes for rows header")
+	}
 	pointsN := int(encoding.UnmarshalUint32(src))
 	src = src[4:]
 	//version := src[0]
@@ -575,10 +578,10 @@ func (r *Row) FastUnmarshalBinary(src []byte, tagpool []Tag, fieldpool []Field, 
 		return nil, tagpool, fieldpool, indexOptionPool, indexKeypool, err
 	}
 
-	r.Timestamp = encoding.UnmarshalInt64(src[:8])
 	if len(src) < 8 {
 		return nil, tagpool, fieldpool, indexOptionPool, indexKeypool, errors.New("too small bytes for row timestamp")
 	}
+	r.Timestamp = encoding.UnmarshalInt64(src[:8])
 
 	indexKeypool = r.UnmarshalIndexKeys(indexKeypool)
 
@@ -749,13 +752,19 @@ func (r *Row) marshalIndexOptions(dst []byte) ([]byte, error) {
 }
 
 func (r *Row) unmarshalIndexOptions(src []byte, indexOptionPool []IndexOption) ([]byte, []IndexOption, error) {
-	isIndexOpt := src[:INDEXCOUNT]
 	r.IndexOptions = nil
+	if len(src) < INDEXCOUNT {
+		return nil, indexOptionPool, errors.New("too small for indexOption flag")
+	}
+	isIndexOpt := src[:INDEXCOUNT]
 	if isIndexOpt[0] == hasNoIndexOption {
 		src = src[INDEXCOUNT:]
 		return src, indexOptionPool, nil
 	}
 	src = src[INDEXCOUNT:]
+	if len(src) < 4 {
+		return nil, indexOptionPool, errors.New("too small for indexOption count")
+	}
 	indexN := int(encoding.UnmarshalUint32(src[:4]))
 	src = src[4:]
 	start := len(indexOptionPool)
@@ -766,8 +775,8 @@ func (r *Row) unmarshalIndexOptions(src []byte, indexOptionPool []IndexOption) (
 	indexOptionPool = indexOptionPool[:start+indexN]
 
 	for i := 0; i < indexN; i++ {
-		if len(src) < 1 {
-			return nil, indexOptionPool, errors.New("too small for indexOption key length")
+		if len(src) < 6 {
+			return nil, indexOptionPool[:start+i], errors.New("too small for indexOption key length")
 		}
 
 		indexOpt := &indexOptionPool[start+i]
@@ -781,6 +790,9 @@ func (r *Row) unmarshalIndexOptions(src []byte, indexOptionPool []IndexOption) (
 			indexOpt.IndexList = append(indexOpt.IndexList, make([]uint16, int(indexListLen)-cap(indexOpt.IndexList))...)
 		}
 		src = src[2:]
+		if len(src) < 2*int(indexListLen) {
+			return nil, indexOptionPool[:start+i], errors.New("too small for indexOption index list")
+		}
 		for j := 0; j < int(indexListLen); j++ {
 			indexOpt.IndexList[j] = encoding.UnmarshalUint16(src[:2])
 			src = src[2:]
